@@ -49,13 +49,15 @@ def indexed_file(draw, tier, max_records=30, min_records=1):
         "gaf": lines,
         "bgzf": comp,
         "stable": stable,
+        "crlf": draw(st.integers(0, 7)) == 0,  # a text file written on Windows
         "_twice": sorted(twice),
     }
 
 
 def materialize(d, case, name="in.gaf"):
     core.write_text(d + "/g.gfa", case["gfa"])
-    data = "".join(l + "\n" for l in case["gaf"]).encode()
+    eol = "\r\n" if case.get("crlf") else "\n"
+    data = "".join(l + eol for l in case["gaf"]).encode()
     if case.get("bgzf"):
         path = d + "/" + name + case["bgzf"].get("suffix", ".gz")
         table = bgzf.write_bgzf(path, data, case["bgzf"]["cuts"], case["bgzf"]["empty"])
@@ -100,6 +102,8 @@ def file_classes(case, table):
     cl = ["stable" if case["stable"] else "unstable", "bgzf" if case.get("bgzf") else "plain"]
     if case.get("bgzf") and case["bgzf"].get("suffix", ".gz") != ".gz":
         cl.append("bgzf_file_not_named_gz")
+    if case.get("crlf"):
+        cl.append("crlf_line_endings")
     if "SN:Z:chr1_" in case["gfa"] or "\ts2" in case["gfa"] and "SO:i:1" in case["gfa"] and len(case["gfa"]) > 3000 and "sniffles" in case["gfa"]:
         cl.append("real_graph_window")
     if table is not None:
@@ -109,7 +113,7 @@ def file_classes(case, table):
         starts = []
         for l in case["gaf"]:
             starts.append(pos)
-            pos += len(l) + 1
+            pos += len(l) + (2 if case.get("crlf") else 1)
         if len(table) >= 2 and any(s >= table[1][0] for s in starts):
             cl.append("record_starts_after_block1")
         bstarts = {u for u, _ in table[1:]}
